@@ -1,4 +1,5 @@
 import SdxProofs.TreeLemmas
+import SdxProofs.TreeInv
 import Props.C02
 import Props.C17
 import Mathlib.Data.Rat.Floor
@@ -18,22 +19,11 @@ theorem (partial); it is evaluated on every real tree by the oracle and the mode
 section
 variable {α : Type} [Field α] [LinearOrder α] [IsStrictOrderedRing α] [FloorRing α] [Inhabited α]
 
-theorem halfIndex_lt_two (i : Ival α) (v : α) : i.halfIndex v < 2 := by
-  unfold Ival.halfIndex; split_ifs <;> omega
-
-theorem childIndex_eq_bitsValue (ivs : List (Ival α)) (vs : List α) :
-    childIndex ivs vs = bitsValue ((List.zip ivs vs).map fun p => p.1.halfIndex p.2) := by
-  simp only [childIndex, bitsValue, List.foldl_map]
-
 /-- T18.d  bit `d-1-j` of a child index is the half index of dimension `j` — for any number of dimensions. -/
 theorem C18_childIndex_bit (ivs : List (Ival α)) (vs : List α) (hl : ivs.length = vs.length) (j : Nat)
     (hj : j < ivs.length) :
-    (childIndex ivs vs / 2 ^ (ivs.length - 1 - j)) % 2 = ivs[j].halfIndex (vs[j]'(hl ▸ hj)) := by
-  rw [childIndex_eq_bitsValue]
-  have hlen : ((List.zip ivs vs).map fun p => p.1.halfIndex p.2).length = ivs.length := by simp [hl]
-  have := bitsValue_bit' ((List.zip ivs vs).map fun p => p.1.halfIndex p.2)
-    (by intro b hb; obtain ⟨p, _, rfl⟩ := List.mem_map.mp hb; exact halfIndex_lt_two _ _) ivs.length hlen j (by rw [hlen]; exact hj)
-  rw [this]; simp
+    (childIndex ivs vs / 2 ^ (ivs.length - 1 - j)) % 2 = ivs[j].halfIndex (vs[j]'(hl ▸ hj)) :=
+  childIndex_bit ivs vs hl j hj
 
 /-- T18.b  a new child's ranges are the halves of the parent's ranges selected by the bits of its index. -/
 theorem C18_child_ranges (E : Env α) (c : FCtx α) (d : NodeData α) (subs : List (Option (Node α))) (idx row : Nat) :
@@ -109,6 +99,174 @@ theorem C18_outlier_keeps_ranges (c : FCtx α) (fuel : Nat) (n : Node α) (row :
   cases fuel with
   | zero => simp [addOutlier]
   | succ f => cases n <;> simp [addOutlier, Node.data]
+
+/-! ## The global invariant (every node of every tree, every insertion history) -/
+
+/-- T18.g  `add_row` preserves the tree invariant `TInv` (see `SdxProofs/TreeInv.lean`), adds exactly the new row
+and keeps the identity (columns, path, seed, ranges, sub-nodes) of the node it is applied to. -/
+theorem C18_add_row_invariant (E : Env α) (c : FCtx α) (rl : Int) (root : List (Ival α)) (fuel depth : Nat) (t : Node α)
+    (row : Nat) (t' : Node α) (hT : TInv E c root t) (hr : RowInside c root t.data row)
+    (h : addRow E c rl fuel depth t row = some t') :
+    TInv E c root t' ∧ t'.allRows.Perm (t.allRows ++ [row]) ∧ SameId t t' :=
+  addRow_inv E c rl root fuel depth t row t' hT hr h
+
+/-- T18.g  the tree `Forest` builds for a column combination (`Leaf(row 0)`, then `add_row` for every further row):
+whenever the build finishes (no `RecursionError`), the tree satisfies the invariant relative to its root ranges and
+holds every input row exactly once. -/
+theorem C18_tree_invariant (E : Env α) (c : FCtx α) (rl : Int) (comb : List Nat) (seed : UInt64)
+    (subs : List (Option (Node α))) (snapped : List (Ival α)) (hlen : snapped.length = comb.length)
+    (hn : 0 < c.data.size) (t : Node α)
+    (h : buildRows E c rl (mkLeaf E c comb [] seed subs snapped 0) = some t) :
+    TInv E c snapped t ∧ t.allRows.Perm (List.range c.data.size) ∧ t.data.snapped = snapped ∧ t.data.comb = comb := by
+  have h0 : TInv E c snapped (mkLeaf E c comb [] seed subs snapped 0) :=
+    mkLeaf_ok E c snapped comb [] seed subs snapped 0 hlen (fun j _ hv => ⟨hv.1, hv.2, fun _ => rfl⟩)
+  unfold buildRows at h
+  have hm : (List.range (c.data.size - 1)).foldlM (fun t i => addRow E c rl 4000 0 t (i + 1)) (mkLeaf E c comb [] seed subs snapped 0)
+      = ((List.range (c.data.size - 1)).map (· + 1)).foldlM (fun t r => addRow E c rl 4000 0 t r) (mkLeaf E c comb [] seed subs snapped 0) := by
+    rw [List.foldlM_map]
+  rw [hm] at h
+  obtain ⟨hT, hp, hid⟩ := addRows_inv E c rl 4000 0 _ (mkLeaf E c comb [] seed subs snapped 0) t h0 h
+  refine ⟨hT, ?_, hid.2.2.2.1, hid.1⟩
+  refine hp.trans ?_
+  have : c.data.size = (c.data.size - 1) + 1 := by omega
+  rw [this, List.range_succ_eq_map]
+  simp [mkLeaf, Node.allRows_leaf]
+
+/-- T18.a  every input row sits in exactly one leaf, once: the rows of the leaves, read left to right, are a
+permutation of `0 .. n-1`. -/
+theorem C18_rows_partitioned (E : Env α) (c : FCtx α) (rl : Int) (comb : List Nat) (seed : UInt64)
+    (subs : List (Option (Node α))) (snapped : List (Ival α)) (hlen : snapped.length = comb.length)
+    (hn : 0 < c.data.size) (t : Node α)
+    (h : buildRows E c rl (mkLeaf E c comb [] seed subs snapped 0) = some t) :
+    t.allRows.Nodup ∧ ∀ r, r ∈ t.allRows ↔ r < c.data.size := by
+  obtain ⟨_, hp, _⟩ := C18_tree_invariant E c rl comb seed subs snapped hlen hn t h
+  exact ⟨hp.nodup_iff.mpr List.nodup_range, fun r => by rw [hp.mem_iff, List.mem_range]⟩
+
+/-- T18.b (global)  in a tree satisfying the invariant, every child of every branch carries its parent's columns and
+seed, its parent's path extended by its key, and as ranges the halves of the parent's ranges selected by the bits of
+its key; keys are unique; and every row below a child routes to that child's key. -/
+theorem C18_children_global (E : Env α) (c : FCtx α) (root : List (Ival α)) (t : Node α) (hT : TInv E c root t)
+    (d : NodeData α) (s : List (Option (Node α))) (ch : List (Nat × Node α)) (hs : Node.Sub (.branch d s ch) t) :
+    (ch.map (·.1)).Nodup ∧ ∀ p ∈ ch, p.2.data.comb = d.comb ∧ p.2.data.path = d.path ++ [p.1] ∧
+      p.2.data.baseSeed = d.baseSeed ∧ p.2.data.snapped = childRanges d p.1 ∧
+      ∀ r ∈ p.2.allRows, childIndex d.snapped (c.vals d.comb r) = p.1 := by
+  have := TInv.sub hs hT
+  cases this with
+  | branch _ _ _ _ hN hB hC =>
+    exact ⟨hB.keys, fun p hp => ⟨(hB.child p hp).1, (hB.child p hp).2.1, (hB.child p hp).2.2.1, (hB.child p hp).2.2.2,
+      hB.route p hp⟩⟩
+
+/-- T18.d (global)  every row a node holds whose value lies in the tree's root range lies in that node's range, in
+every dimension: lower end closed, upper end open unless it still is the root's upper end. (Rows beyond the root
+range are the outliers of a pushed-down column; nothing is claimed for them.) -/
+theorem C18_rows_inside_global (E : Env α) (c : FCtx α) (root : List (Ival α)) (t n : Node α) (hT : TInv E c root t)
+    (hs : Node.Sub n t) (r : Nat) (hr : r ∈ n.allRows) (j : Nat) (hj : j < n.data.comb.length)
+    (hroot : (root.getD j default).lo ≤ c.value r (n.data.comb.getD j 0) ∧
+      c.value r (n.data.comb.getD j 0) ≤ (root.getD j default).hi) :
+    (n.data.snapped.getD j default).lo ≤ c.value r (n.data.comb.getD j 0) ∧
+    c.value r (n.data.comb.getD j 0) ≤ (n.data.snapped.getD j default).hi ∧
+    (c.value r (n.data.comb.getD j 0) = (n.data.snapped.getD j default).hi →
+      (n.data.snapped.getD j default).hi = (root.getD j default).hi) := by
+  have := TInv.sub hs hT
+  cases this with
+  | leaf _ d s rows hN => exact hN.inside r (by simpa [Node.allRows_leaf] using hr) j hj hroot
+  | branch _ d s ch hN hB hC => exact hN.inside r hr j hj hroot
+
+/-- T18.e (global)  the tight range of every node is the hull of the values of the rows it holds: it contains them
+all and both its ends are attained. -/
+theorem C18_tight_range_global (E : Env α) (c : FCtx α) (root : List (Ival α)) (t n : Node α) (hT : TInv E c root t)
+    (hs : Node.Sub n t) (j : Nat) (hj : j < n.data.comb.length) :
+    HullOf (n.data.actual.getD j default) (n.allRows.map fun r => c.value r (n.data.comb.getD j 0)) := by
+  have := TInv.sub hs hT
+  cases this with
+  | leaf _ d s rows hN => have := hN.hull j hj; simpa [Node.allRows_leaf, Node.data] using this
+  | branch _ d s ch hN hB hC => have := hN.hull j hj; simpa [Node.data] using this
+
+/-- T18.f (global)  every branch of the tree is no stub, is not a single point, and passed the low-count filter on
+a set of rows that it still holds. -/
+theorem C18_branch_licences_global (E : Env α) (c : FCtx α) (root : List (Ival α)) (t : Node α) (hT : TInv E c root t)
+    (d : NodeData α) (s : List (Option (Node α))) (ch : List (Nat × Node α)) (hs : Node.Sub (.branch d s ch) t) :
+    d.isStub = false ∧ stubFlag E c s = false ∧ d.actual.all Ival.isSing = false ∧
+    ∃ h0 : List Nat, h0.Subperm (Node.branch d s ch).allRows ∧
+      (c.kind.newEntity.addMany (h0.map c.pidRow)).isLowCount E c.ap.salt c.ap.supp = false := by
+  have := TInv.sub hs hT
+  cases this with
+  | branch _ _ _ _ hN hB hC =>
+    refine ⟨hB.notStub, by rw [← hN.stub]; exact hB.notStub, hB.notSing, ?_⟩
+    simpa using hB.licence
+
+/-- entity sets only grow with the rows -/
+theorem entitySet_mono_subset (h0 all : List (List UInt64)) (hsub : h0 ⊆ all) (k : Nat) :
+    entitySet (idColumn h0 k) ⊆ entitySet (idColumn all k) := by
+  intro x hx
+  simp only [entitySet, idColumn, List.mem_toFinset, List.mem_filter, List.mem_map] at hx ⊢
+  obtain ⟨⟨r, hr, rfl⟩, hne⟩ := hx
+  exact ⟨⟨r, hsub hr, rfl⟩, hne⟩
+
+/-- T18.f (global, explicit ids)  every branch holds at least `low_threshold` distinct non-null entities in every
+id column. -/
+theorem C18_branch_entities_generic (E : Env α) (c : FCtx α) (root : List (Ival α)) (t : Node α) (hT : TInv E c root t)
+    (d : NodeData α) (s : List (Option (Node α))) (ch : List (Nat × Node α)) (hs : Node.Sub (.branch d s ch) t)
+    (dims cap : Nat) (hk : c.kind = .generic dims cap) (hrows : ∀ r, (c.pidRow r).length = dims)
+    (hcap : c.ap.supp.lt ≤ (cap : Int)) :
+    ∀ k < dims, c.ap.supp.lt ≤ ((entitySet (idColumn ((Node.branch d s ch).allRows.map c.pidRow) k)).card : Int) := by
+  obtain ⟨_, _, _, h0, hsub, hlow⟩ := C18_branch_licences_global E c root t hT d s ch hs
+  intro k hkd
+  rw [hk] at hlow
+  have h1 := C02_saturating_counter_floor E c.ap.salt c.ap.supp cap dims (h0.map c.pidRow)
+    (by intro r hr; obtain ⟨x, _, rfl⟩ := List.mem_map.mp hr; exact hrows x) hcap hlow k hkd
+  have h2 := Finset.card_le_card (entitySet_mono_subset (h0.map c.pidRow) ((Node.branch d s ch).allRows.map c.pidRow)
+    (List.map_subset c.pidRow hsub.subset) k)
+  have : ((entitySet (idColumn (h0.map c.pidRow) k)).card : Int) ≤
+      ((entitySet (idColumn ((Node.branch d s ch).allRows.map c.pidRow) k)).card : Int) := by exact_mod_cast h2
+  omega
+
+/-- rows carrying one non-null id (implicit row ids: every row) -/
+def nonNullRows (rows : List (List UInt64)) : Nat :=
+  rows.countP (fun r => match r with | [pid] => pid != 0 | _ => false)
+
+theorem addMany_unique (rows : List (List UInt64)) (c0 : Nat) (s0 : UInt64) :
+    ∃ s, (ECounter.unique c0 s0).addMany rows = .unique (c0 + nonNullRows rows) s := by
+  induction rows generalizing c0 s0 with
+  | nil => exact ⟨s0, by simp [ECounter.addMany, nonNullRows]⟩
+  | cons r rows ih =>
+    simp only [ECounter.addMany, List.foldl_cons] at ih ⊢
+    match r with
+    | [] => obtain ⟨s, hs⟩ := ih c0 s0; exact ⟨s, by simp [ECounter.add, hs, nonNullRows]⟩
+    | [pid] =>
+      by_cases hp : pid = 0
+      · obtain ⟨s, hs⟩ := ih c0 s0; exact ⟨s, by simp [ECounter.add, hp, hs, nonNullRows]⟩
+      · obtain ⟨s, hs⟩ := ih (c0 + 1) (s0 ^^^ pid)
+        exact ⟨s, by simp [ECounter.add, hp, hs, nonNullRows, List.countP_cons]; omega⟩
+    | _ :: _ :: _ => obtain ⟨s, hs⟩ := ih c0 s0; exact ⟨s, by simp [ECounter.add, hs, nonNullRows]⟩
+
+/-- T18.f (global, implicit row ids)  every branch holds at least `low_threshold` rows with a non-null id. -/
+theorem C18_branch_entities_unique (E : Env α) (c : FCtx α) (root : List (Ival α)) (t : Node α) (hT : TInv E c root t)
+    (d : NodeData α) (s : List (Option (Node α))) (ch : List (Nat × Node α)) (hs : Node.Sub (.branch d s ch) t)
+    (hk : c.kind = .unique) :
+    c.ap.supp.lt ≤ (nonNullRows ((Node.branch d s ch).allRows.map c.pidRow) : Int) := by
+  obtain ⟨_, _, _, h0, hsub, hlow⟩ := C18_branch_licences_global E c root t hT d s ch hs
+  rw [hk] at hlow
+  obtain ⟨sd, hsd⟩ := addMany_unique (h0.map c.pidRow) 0 0
+  simp only [CounterKind.newEntity] at hlow
+  rw [hsd] at hlow
+  simp only [ECounter.isLowCount, ECounter.trackers] at hlow
+  have h1 : c.ap.supp.lt ≤ ((0 + nonNullRows (h0.map c.pidRow) : Nat) : Int) := by
+    by_contra hlt
+    have := C02_floor E c.ap.salt c.ap.supp [(((0 + nonNullRows (h0.map c.pidRow) : Nat) : Int), sd)] _ sd (by simp) (not_le.mp hlt)
+    rw [this] at hlow; cases hlow
+  have h2 : nonNullRows (h0.map c.pidRow) ≤ nonNullRows ((Node.branch d s ch).allRows.map c.pidRow) := by
+    simp only [nonNullRows, List.countP_map]
+    exact hsub.countP_le _
+  omega
+
+/-- Non-vacuity of the invariant's premises: the root leaf `Forest` starts from satisfies `TInv`, and every row may be
+handed to a root (so `C18_add_row_invariant` applies to the first insertion, and by its conclusion to every later one). -/
+example (E : Env α) (c : FCtx α) (comb : List Nat) (seed : UInt64) (snapped : List (Ival α)) (hlen : snapped.length = comb.length) :
+    TInv E c snapped (mkLeaf E c comb [] seed [] snapped 0) ∧
+    ∀ row, RowInside c snapped (mkLeaf E c comb [] seed [] snapped 0).data row :=
+  ⟨mkLeaf_ok E c snapped comb [] seed [] snapped 0 hlen (fun j _ hv => ⟨hv.1, hv.2, fun _ => rfl⟩),
+   fun row => rowInside_root c _ row⟩
 
 /-- Non-vacuity: the range `[0,4)` over ℚ is proper and `3` lies in it, routed to the upper half `[2,4)`. -/
 example : (⟨0, 4⟩ : Ival ℚ).halfIndex 3 = 1 := by
